@@ -200,159 +200,190 @@ func reachesClose(p *Prog, fn *ssa.Function, depth int, seen map[*ssa.Function]b
 
 func c16Loop(p *Prog, ls *Lockset, r *Report) {
 	nLoops := 0
-	for _, fn := range p.RepoFns("spine") {
-		var ticker *ssa.Call
-		forEachCall(fn, func(site ssa.CallInstruction) {
-			if c, ok := site.(*ssa.Call); ok {
-				if callee := c.Call.StaticCallee(); callee != nil && fnPkgPath(callee) == "time" && callee.Name() == "NewTicker" {
-					ticker = c
+	for _, fn0 := range p.RepoFns("spine") {
+		fn := fn0
+		p.InScope(fn, func() {
+			var ticker *ssa.Call
+			forEachCallOwn(fn, func(site ssa.CallInstruction) {
+				if c, ok := site.(*ssa.Call); ok {
+					if callee := c.Call.StaticCallee(); callee != nil && fnPkgPath(callee) == "time" && callee.Name() == "NewTicker" {
+						ticker = c
+					}
 				}
-			}
-		})
-		if ticker == nil {
-			continue
-		}
-		nLoops++
-		base := FnName(fn)
-		// R5: period abstract domain
-		var dparam *ssa.Parameter
-		for _, prm := range fn.Params {
-			if n := namedOf(prm.Type()); n != nil && n.Obj().Pkg() != nil && n.Obj().Pkg().Path() == "time" && n.Obj().Name() == "Duration" {
-				dparam = prm
-			}
-		}
-		okPeriod := dparam != nil
-		desc := ""
-		var walk func(v ssa.Value, d int)
-		seen := map[ssa.Value]bool{}
-		walk = func(v ssa.Value, d int) {
-			if v == nil || seen[v] || d > 8 {
+			})
+			if ticker == nil {
 				return
 			}
-			seen[v] = true
-			switch x := v.(type) {
-			case *ssa.Parameter:
-				if x != dparam {
-					okPeriod = false
-					desc += " other parameter " + x.Name() + ";"
-				} else {
-					desc += " timeout;"
+			nLoops++
+			base := FnName(fn)
+			// R5: period abstract domain
+			var dparam *ssa.Parameter
+			for _, prm := range fn.Params {
+				if n := namedOf(prm.Type()); n != nil && n.Obj().Pkg() != nil && n.Obj().Pkg().Path() == "time" && n.Obj().Name() == "Duration" {
+					dparam = prm
 				}
-			case *ssa.Phi:
-				for _, e := range x.Edges {
-					walk(e, d+1)
+			}
+			okPeriod := dparam != nil
+			desc := ""
+			var walk func(v ssa.Value, d int)
+			seen := map[ssa.Value]bool{}
+			walk = func(v ssa.Value, d int) {
+				if v == nil || seen[v] || d > 8 {
+					return
 				}
-			case *ssa.BinOp:
-				k, isK := constInt(x.Y)
-				if x.Op == token.SUB && x.X == ssa.Value(dparam) && isK && k >= 0 {
-					// guarded by timeout > k' with k' >= k
-					guarded := false
-					for _, g := range Guards(x.Block()) {
-						if bo, ok := g.Cond.(*ssa.BinOp); ok && g.Val && bo.Op == token.GTR && bo.X == ssa.Value(dparam) {
-							if k2, ok := constInt(bo.Y); ok && k2 >= k {
-								guarded = true
+				seen[v] = true
+				switch x := v.(type) {
+				case *ssa.Parameter:
+					if sv := substParam(x); sv != ssa.Value(x) {
+						// parameter of an extracted period helper: stands for the argument
+						seen[sv] = false
+						walk(sv, d+1)
+						return
+					}
+					if x != dparam {
+						okPeriod = false
+						desc += " other parameter " + x.Name() + ";"
+					} else {
+						desc += " timeout;"
+					}
+				case *ssa.Call:
+					// the period computed by an extracted helper: whatever the helper returns
+					h := x.Call.StaticCallee()
+					if h == nil || !belowScopeRoot(h) {
+						okPeriod = false
+						desc += " " + Path(v) + ";"
+						return
+					}
+					for _, hb := range h.Blocks {
+						if ret, ok := hb.Instrs[len(hb.Instrs)-1].(*ssa.Return); ok && len(ret.Results) == 1 {
+							walk(ret.Results[0], d+1)
+						}
+					}
+				case *ssa.Phi:
+					for _, e := range x.Edges {
+						walk(e, d+1)
+					}
+				case *ssa.BinOp:
+					k, isK := constInt(x.Y)
+					if x.Op == token.SUB && substParam(x.X) == ssa.Value(dparam) && isK && k >= 0 {
+						// guarded by timeout > k' with k' >= k
+						guarded := false
+						for _, g := range Guards(x.Block()) {
+							if bo, ok := g.Cond.(*ssa.BinOp); ok && g.Val && bo.Op == token.GTR && substParam(bo.X) == ssa.Value(dparam) {
+								if k2, ok := constInt(bo.Y); ok && k2 >= k {
+									guarded = true
+								}
 							}
 						}
-					}
-					if !guarded {
-						okPeriod = false
-						desc += fmt.Sprintf(" timeout-%d without a guard timeout > %d;", k, k)
+						if !guarded {
+							okPeriod = false
+							desc += fmt.Sprintf(" timeout-%d without a guard timeout > %d;", k, k)
+						} else {
+							desc += fmt.Sprintf(" timeout-%d under timeout>%d;", k, k)
+						}
 					} else {
-						desc += fmt.Sprintf(" timeout-%d under timeout>%d;", k, k)
+						okPeriod = false
+						desc += " arithmetic " + x.Op.String() + ";"
 					}
-				} else {
+				default:
 					okPeriod = false
-					desc += " arithmetic " + x.Op.String() + ";"
-				}
-			default:
-				okPeriod = false
-				desc += " " + Path(v) + ";"
-			}
-		}
-		walk(ticker.Call.Args[0], 0)
-		r.Check("R5", base+"|period", okPeriod, p.InstrPos(ticker), "ticker period is one of:"+desc)
-		// the timeout handed to the loop is the announced one
-		okTimeout := false
-		tdesc := ""
-		for _, site := range p.Callers(fn) {
-			idx := -1
-			for i, prm := range fn.Params {
-				if prm == dparam {
-					idx = i
+					desc += " " + Path(v) + ";"
 				}
 			}
-			if idx < 0 || idx >= len(site.Common().Args) {
-				continue
+			walk(ticker.Call.Args[0], 0)
+			r.Check("R5", base+"|period", okPeriod, p.InstrPos(ticker), "ticker period is one of:"+desc)
+			// the timeout handed to the loop is the announced one
+			okTimeout := false
+			tdesc := ""
+			for _, site := range p.Callers(fn) {
+				idx := -1
+				for i, prm := range fn.Params {
+					if prm == dparam {
+						idx = i
+					}
+				}
+				if idx < 0 || idx >= len(site.Common().Args) {
+					continue
+				}
+				tdesc = Path(site.Common().Args[idx])
+				okTimeout = strings.Contains(tdesc, "."+FN("HeartbeatManager.heartBeatTimeout")+".GetTimeDuration()")
 			}
-			tdesc = Path(site.Common().Args[idx])
-			okTimeout = strings.Contains(tdesc, ".heartBeatTimeout.GetTimeDuration()")
-		}
-		r.Check("R5", base+"|timeout-origin", okTimeout, p.Pos(fn.Pos()), "the loop's timeout is "+tdesc)
+			r.Check("R5", base+"|timeout-origin", okTimeout, p.Pos(fn.Pos()), "the loop's timeout is "+tdesc)
 
-		// R6: select with the stop channel; its case returns
-		var sel *ssa.Select
-		for _, b := range fn.Blocks {
-			for _, ins := range b.Instrs {
-				if s, ok := ins.(*ssa.Select); ok {
-					sel = s
+			// R6: select with the stop channel; its case returns
+			var sel *ssa.Select
+			for _, b := range fn.Blocks {
+				for _, ins := range b.Instrs {
+					if s, ok := ins.(*ssa.Select); ok {
+						sel = s
+					}
 				}
 			}
-		}
-		okStop := false
-		if sel != nil {
-			for i, st := range sel.States {
-				if st.Dir != types.RecvOnly {
-					continue
-				}
-				if _, isParam := st.Chan.(*ssa.Parameter); !isParam {
-					continue
-				}
-				// the branch taken for index i leads to a return without going through the select again
-				for _, ref := range *sel.Referrers() {
-					ex, ok := ref.(*ssa.Extract)
-					if !ok || ex.Index != 0 {
+			okStop := false
+			if sel != nil {
+				for i, st := range sel.States {
+					if st.Dir != types.RecvOnly {
 						continue
 					}
-					for _, r2 := range *ex.Referrers() {
-						bo, ok := r2.(*ssa.BinOp)
-						if !ok || bo.Op != token.EQL {
+					if _, isParam := st.Chan.(*ssa.Parameter); !isParam {
+						continue
+					}
+					// the branch taken for index i leads to a return without going through the select again
+					for _, ref := range *sel.Referrers() {
+						ex, ok := ref.(*ssa.Extract)
+						if !ok || ex.Index != 0 {
 							continue
 						}
-						if k, ok := constInt(bo.Y); !ok || int(k) != i {
-							continue
-						}
-						for _, r3 := range *bo.Referrers() {
-							if ifi, ok := r3.(*ssa.If); ok {
-								tb := ifi.Block().Succs[0]
-								if _, isRet := tb.Instrs[len(tb.Instrs)-1].(*ssa.Return); isRet {
-									okStop = true
+						for _, r2 := range *ex.Referrers() {
+							bo, ok := r2.(*ssa.BinOp)
+							if !ok || bo.Op != token.EQL {
+								continue
+							}
+							if k, ok := constInt(bo.Y); !ok || int(k) != i {
+								continue
+							}
+							for _, r3 := range *bo.Referrers() {
+								if ifi, ok := r3.(*ssa.If); ok {
+									tb := ifi.Block().Succs[0]
+									if _, isRet := tb.Instrs[len(tb.Instrs)-1].(*ssa.Return); isRet {
+										okStop = true
+									}
 								}
 							}
 						}
 					}
 				}
 			}
-		}
-		r.Check("R6", base+"|stop-case", okStop, p.Pos(fn.Pos()), "the select has a receive on the stop channel parameter whose case returns")
-		// each tick: SetData on the manager's local feature with heartbeat data built from a fresh counter
-		fli := p.LookupIface("api", "FeatureLocalInterface")
-		var setData *ssa.Call
-		forEachCall(fn, func(site ssa.CallInstruction) {
-			if c, ok := site.(*ssa.Call); ok && calleeIsIfaceMethod(&c.Call, fli, "SetData") {
-				setData = c
+			r.Check("R6", base+"|stop-case", okStop, p.Pos(fn.Pos()), "the select has a receive on the stop channel parameter whose case returns")
+			// each tick: SetData on the manager's local feature with heartbeat data built from a fresh counter
+			fli := p.LookupIface("api", "FeatureLocalInterface")
+			var setData *ssa.Call
+			forEachCall(fn, func(site ssa.CallInstruction) {
+				if c, ok := site.(*ssa.Call); ok && calleeIsIfaceMethod(&c.Call, fli, "SetData") {
+					setData = c
+				}
+			})
+			okTick := false
+			tickDesc := ""
+			if setData != nil && sel != nil {
+				args := callArgs(&setData.Call)
+				fct, _ := constString(args[0])
+				data := Path(args[1])
+				inLoop := cyclic(liftInScope(setData).Block())
+				// the data handed over is built by a function that fills a heartbeat data value
+				fromBuilder := false
+				for _, src := range p.Sources(args[1], false) {
+					if bc, ok := src.Val.(*ssa.Call); ok {
+						if bf := bc.Call.StaticCallee(); bf != nil && buildsHeartbeatData(bf) {
+							fromBuilder = true
+						}
+					}
+				}
+				okTick = fct == "deviceDiagnosisHeartbeatData" && inLoop && strings.HasPrefix(Path(setData.Call.Value), "recv."+FN("HeartbeatManager.localFeature")) && fromBuilder
+				tickDesc = fmt.Sprintf("SetData(%s, %s) on %s inside the loop: %v", fct, data, Path(setData.Call.Value), inLoop)
 			}
+			r.Check("R6", base+"|tick", okTick, p.Pos(fn.Pos()), tickDesc)
 		})
-		okTick := false
-		tickDesc := ""
-		if setData != nil && sel != nil {
-			args := callArgs(&setData.Call)
-			fct, _ := constString(args[0])
-			data := Path(args[1])
-			inLoop := cyclic(setData.Block())
-			okTick = fct == "deviceDiagnosisHeartbeatData" && inLoop && strings.HasPrefix(Path(setData.Call.Value), "recv."+FN("HeartbeatManager.localFeature")) && strings.Contains(data, "heartbeatData()")
-			tickDesc = fmt.Sprintf("SetData(%s, %s) on %s inside the loop: %v", fct, data, Path(setData.Call.Value), inLoop)
-		}
-		r.Check("R6", base+"|tick", okTick, p.Pos(fn.Pos()), tickDesc)
 	}
 	r.Floor("R6", "refresh loops", nLoops, 1)
 	// heartbeat data: counter from the atomic counter function, timeout is the manager's announced timeout
@@ -391,7 +422,20 @@ func c16Loop(p *Prog, ls *Lockset, r *Report) {
 				// callers pass a fresh counter and the current time
 				for _, site := range p.Callers(fn) {
 					args := callArgs(site.Common())
-					fresh := len(args) == 2 && strings.HasSuffix(Path(args[1]), ".heartBeatCounter()") && strings.Contains(Path(args[0]), "Now()")
+					// the counter argument is the result of a function that returns an atomic increment of the counter field
+					freshCounter := false
+					if len(args) == 2 {
+						if cc, ok := args[1].(*ssa.Call); ok {
+							if cf := cc.Call.StaticCallee(); cf != nil && cf.Blocks != nil {
+								forEachCallOwn(cf, func(s3 ssa.CallInstruction) {
+									if a3 := s3.Common().StaticCallee(); a3 != nil && fnPkgPath(a3) == "sync/atomic" && strings.HasPrefix(a3.Name(), "Add") && len(s3.Common().Args) > 0 && strings.HasSuffix(Path(s3.Common().Args[0]), "."+FN("HeartbeatManager.heartBeatNum")) {
+										freshCounter = true
+									}
+								})
+							}
+						}
+					}
+					fresh := len(args) == 2 && freshCounter && strings.Contains(Path(args[0]), "Now()")
 					r.Check("R6", FnName(site.Parent())+"|fresh-counter", fresh, p.InstrPos(site.(ssa.Instruction)), fmt.Sprintf("heartbeat data built with (%s, %s)", Path(args[0]), Path(args[1])))
 				}
 			}
@@ -443,36 +487,53 @@ func c16FeatureKnown(p *Prog, r *Report) {
 			if target == nil || target.Blocks == nil {
 				continue
 			}
-			forEachCall(target, func(site ssa.CallInstruction) {
-				c := site.Common()
-				if !c.IsInvoke() {
-					return
-				}
-				ld, ok := c.Value.(*ssa.UnOp)
-				if !ok {
-					return
-				}
-				fa, ok := ld.X.(*ssa.FieldAddr)
-				if !ok || namedOf(fa.X.Type()) != recvT || fieldOfAddr(fa) == nil {
-					return
-				}
-				fname := fieldOfAddr(fa).Name()
-				if setByCtor[fname] {
-					return
-				}
-				n++
-				guarded := func(b *ssa.BasicBlock) bool {
-					for _, gd := range Guards(b) {
-						if x, trueNil, ok := nilTest(gd.Cond); ok && trueNil != gd.Val && strings.HasSuffix(Path(x), "."+fname) {
-							return true
-						}
+			p.InScope(target, func() {
+				forEachCall(target, func(site ssa.CallInstruction) {
+					c := site.Common()
+					if !c.IsInvoke() {
+						return
 					}
-					return false
-				}
-				ok2 := guarded(site.Block()) || guarded(g.Block())
-				r.Check("R10", fmt.Sprintf("%s|%s.%s()", FnName(target), fname, c.Method.Name()), ok2, p.InstrPos(site), fmt.Sprintf("field %s is nil until the heartbeat function is added; the goroutine calls %s on it; nil test before the spawn or before the call: %v", fname, c.Method.Name(), ok2))
+					ld, ok := c.Value.(*ssa.UnOp)
+					if !ok {
+						return
+					}
+					fa, ok := ld.X.(*ssa.FieldAddr)
+					if !ok || namedOf(fa.X.Type()) != recvT || fieldOfAddr(fa) == nil {
+						return
+					}
+					fname := fieldOfAddr(fa).Name()
+					if setByCtor[fname] {
+						return
+					}
+					n++
+					guarded := func(b *ssa.BasicBlock) bool {
+						for _, gd := range Guards(b) {
+							if x, trueNil, ok := nilTest(gd.Cond); ok && trueNil != gd.Val && strings.HasSuffix(Path(x), "."+fname) {
+								return true
+							}
+						}
+						return false
+					}
+					ok2 := guarded(site.Block()) || guarded(g.Block())
+					r.Check("R10", fmt.Sprintf("%s|%s.%s()", FnName(target), fname, c.Method.Name()), ok2, p.InstrPos(site), fmt.Sprintf("field %s is nil until the heartbeat function is added; the goroutine calls %s on it; nil test before the spawn or before the call: %v", fname, c.Method.Name(), ok2))
+				})
 			})
 		}
 	}
 	r.Floor("R10", "uses of constructor-nil fields in the refresh goroutine", n, 1)
+}
+
+// buildsHeartbeatData: the function allocates and returns a heartbeat data value.
+func buildsHeartbeatData(fn *ssa.Function) bool {
+	if fn.Blocks == nil {
+		return false
+	}
+	for _, b := range fn.Blocks {
+		for _, ins := range b.Instrs {
+			if a, ok := ins.(*ssa.Alloc); ok && isNamed(a.Type(), "model", "DeviceDiagnosisHeartbeatDataType") {
+				return true
+			}
+		}
+	}
+	return false
 }
